@@ -274,7 +274,10 @@ def absorb (st : St) (excluded : Bool) (r : Ctx × Str) : St :=
   else if excluded then { st with excl := st.excl ++ r.1.exprs }
   else { st with exprs := st.exprs ++ r.1.exprs, created := true }
 
-/-- `wcoll_arg_process` -/
+/-- `wcoll_arg_process`.  (Since /repo d1c94df the result of `hostlist_push (opt->wcoll, hosts)` is checked: a word
+the parser refuses is `errx`.  Parsing is abstract in this model — `exprs` are the arguments of the pushes — so that
+branch is not a case split here; checks/c10.py `unparsable-word:*` pins it on the real pdsh and probes which form
+the tree has.) -/
 def argProcess (mode : LineMode) (fs : FS) (st : St) (arg : Str) : St :=
   if st.fatal then st
   else
